@@ -79,7 +79,9 @@ import (
 type send struct {
 	face  uint64
 	raw   []byte
-	token []byte
+	token []byte // copy taken inside SendPacket
+	ref   []byte // the very slice handed over in OutPkt.PitToken (NOT copied): the real link service
+	//              only enqueues the OutPkt and serialises the token later, in the face's send goroutine
 }
 
 type fakeFace struct {
@@ -104,7 +106,7 @@ func (f *fakeFace) SendPacket(out dispatch.OutPkt) {
 	raw := append([]byte{}, out.Pkt.Raw...)
 	tok := append([]byte{}, out.PitToken...)
 	sendsMu.Lock()
-	sends = append(sends, send{face: f.id, raw: raw, token: tok})
+	sends = append(sends, send{face: f.id, raw: raw, token: tok, ref: out.PitToken})
 	sendsMu.Unlock()
 }
 
@@ -116,6 +118,7 @@ var (
 	labels   map[uint64]int    // real token (thread id << 32 | 32-bit value) -> label
 	labelVal []uint64          // label -> real token
 	lastTok  map[string]int    // name text -> label most recently sent upstream for that name
+	lastRef  map[string][]byte // name text -> the token slice handed over with that Interest (read lazily)
 	logInit  bool
 	hashSeen map[uint64]string // A-hash check: name hash -> name text
 	lsMode   bool
@@ -217,6 +220,7 @@ func newHistory(f []string) string {
 	labels = map[uint64]int{}
 	labelVal = nil
 	lastTok = map[string]int{}
+	lastRef = map[string][]byte{}
 	hashSeen = map[uint64]string{}
 	sends = nil
 	return "ok"
@@ -300,6 +304,7 @@ func render() string {
 				}
 				tok = "T" + strconv.Itoa(l)
 				lastTok[common.NameText(p.Interest.NameV)] = l
+				lastRef[common.NameText(p.Interest.NameV)] = s.ref
 			}
 			out = append(out, fmt.Sprintf("I>%d %s h=%s t=%s", s.face, common.NameText(p.Interest.NameV), hop, tok))
 		} else if p.Data != nil {
@@ -395,6 +400,15 @@ func doData(f []string) string {
 		tok = make([]byte, 6)
 		binary.BigEndian.PutUint16(tok, uint16(labelVal[l]>>32))
 		binary.BigEndian.PutUint32(tok[2:], uint32(labelVal[l]))
+		if f[5][0] == '@' {
+			/* "@name" = the upstream echoes the token that Interest carried ON THE WIRE. The real link
+			   service serialises OutPkt.PitToken some time after SendPacket returned (send queue), so
+			   the bytes are read from the handed-over slice only now - the latest possible moment. If
+			   the forwarder kept writing into that slice, the echo names another PIT entry. */
+			if ref := lastRef[f[5][1:]]; len(ref) == 6 {
+				copy(tok, ref)
+			}
+		}
 	default:
 		tok = common.UnHex(f[5])
 	}
